@@ -1,11 +1,11 @@
 import SimbodyModel.Proto
 import SimbodyModel.C08
 /-! Driver for C08.  Records:
-  `I loopFD n m fullrank M(n·n) G(m·n) f(n) b(m)`  →  `O loopFD udot(n) [λ(m) if fullrank=1]`
-      computed by `C08.loopFD` at `Float`; `minv` = dense Gaussian elimination with partial pivoting on the exported
+  `I loopFD n m fullrank M(n·n) G(m·n) f(n) b(m)`  →  `O loopFD 1 udot(n) [λ(m) if fullrank=1]`
+      computed by `C08.loopFD` at `Float`; `minv` = dense LU with partial pivoting of the exported
       mass matrix, `pinv` = Gaussian elimination with complete pivoting, pivots below `1e-9·max` dropped (free
       multipliers set to 0) — any solution of the consistent system gives the same `udot`.
-  `I power n m G(m·n) λ(m) u(n)` → `O power p`   (`C08.power`).
+  `I power n m G(m·n) λ(m) u(n)` → `O power 1 p`   (`C08.power`).
   `I chk …` → `O chk 1`. -/
 open Proto C08
 
@@ -15,82 +15,93 @@ def toVec {n : Nat} (a : Array F) : Vec F n := fun i => a[i.val]!
 def ofVec {n : Nat} (v : Vec F n) : Array F := Array.ofFn v
 def toMat {m n : Nat} (a : Array F) : Mat F m n := fun i j => a[i.val * n + j.val]!
 
-/-- solve `A x = b` (square, nonsingular) by Gaussian elimination with partial pivoting -/
-def solveSquare (n : Nat) (A0 : Array (Array F)) (b0 : Array F) : Array F := Id.run do
+/-- LU factorisation with partial pivoting of a flat row-major `n×n` matrix; returns (LU, row permutation) -/
+def luFactor (n : Nat) (A0 : FloatArray) : FloatArray × Array Nat := Id.run do
   let mut A := A0
-  let mut b := b0
+  let mut perm : Array Nat := Array.range n
   for k in [0:n] do
-    -- pivot
     let mut p := k
+    let mut best := (A.get! (k * n + k)).abs
     for i in [k+1:n] do
-      if (A[i]!)[k]!.abs > (A[p]!)[k]!.abs then p := i
-    let rk := A[k]!; let rp := A[p]!
-    A := (A.set! k rp).set! p rk
-    let bk := b[k]!; let bp := b[p]!
-    b := (b.set! k bp).set! p bk
-    let piv := (A[k]!)[k]!
+      let v := (A.get! (i * n + k)).abs
+      if v > best then best := v; p := i
+    if p != k then
+      for j in [0:n] do
+        let a := A.get! (k * n + j); let b := A.get! (p * n + j)
+        A := (A.set! (k * n + j) b).set! (p * n + j) a
+      let pk := perm[k]!; let pp := perm[p]!
+      perm := (perm.set! k pp).set! p pk
+    let piv := A.get! (k * n + k)
     for i in [k+1:n] do
-      let fct := (A[i]!)[k]! / piv
-      let mut row := A[i]!
-      for j in [k:n] do
-        row := row.set! j (row[j]! - fct * (A[k]!)[j]!)
-      A := A.set! i row
-      b := b.set! i (b[i]! - fct * b[k]!)
-  let mut x := Array.replicate n 0.0
-  for kk in [0:n] do
-    let k := n - 1 - kk
-    let mut s := b[k]!
-    for j in [k+1:n] do
-      s := s - (A[k]!)[j]! * x[j]!
-    x := x.set! k (s / (A[k]!)[k]!)
-  return x
+      let fct := A.get! (i * n + k) / piv
+      A := A.set! (i * n + k) fct
+      for j in [k+1:n] do
+        A := A.set! (i * n + j) (A.get! (i * n + j) - fct * A.get! (k * n + j))
+  return (A, perm)
 
-/-- a solution of the (possibly rank-deficient, consistent) symmetric system `A y = r`: complete pivoting,
+def luSolve (n : Nat) (LU : FloatArray) (perm : Array Nat) (b : Array F) : Array F := Id.run do
+  let mut y : Array F := (Array.range n).map (fun i => b[perm[i]!]!)
+  for i in [0:n] do
+    let mut s := y[i]!
+    for j in [0:i] do
+      s := s - LU.get! (i * n + j) * y[j]!
+    y := y.set! i s
+  for ii in [0:n] do
+    let i := n - 1 - ii
+    let mut s := y[i]!
+    for j in [i+1:n] do
+      s := s - LU.get! (i * n + j) * y[j]!
+    y := y.set! i (s / LU.get! (i * n + i))
+  return y
+
+/-- a solution of the (possibly rank-deficient, consistent) system `A y = r` (flat row-major `m×m`): complete pivoting,
 pivots below `tol·|first pivot|` are dropped and the corresponding unknowns set to zero -/
-def solveRankDef (m : Nat) (A0 : Array (Array F)) (r0 : Array F) (tol : F) : Array F := Id.run do
+def solveRankDef (m : Nat) (A0 : FloatArray) (r0 : Array F) (tol : F) : Array F := Id.run do
   let mut A := A0
   let mut r := r0
-  let mut perm : Array Nat := Array.range m      -- column permutation
+  let mut perm : Array Nat := Array.range m
   let mut rank := 0
   let mut first := 0.0
   for k in [0:m] do
-    -- complete pivot search in the trailing block
     let mut pi := k; let mut pj := k; let mut best := 0.0
     for i in [k:m] do
       for j in [k:m] do
-        let v := (A[i]!)[j]!.abs
+        let v := (A.get! (i * m + j)).abs
         if v > best then best := v; pi := i; pj := j
     if k == 0 then first := best
     if best ≤ tol * first || best == 0.0 then break
     rank := k + 1
-    -- swap rows k,pi
-    let rk := A[k]!; let rp := A[pi]!
-    A := (A.set! k rp).set! pi rk
-    let bk := r[k]!; let bp := r[pi]!
-    r := (r.set! k bp).set! pi bk
-    -- swap columns k,pj
-    A := A.map (fun row => let a := row[k]!; let b := row[pj]!; (row.set! k b).set! pj a)
-    let ck := perm[k]!; let cp := perm[pj]!
-    perm := (perm.set! k cp).set! pj ck
-    let piv := (A[k]!)[k]!
+    if pi != k then
+      for j in [0:m] do
+        let a := A.get! (k * m + j); let b := A.get! (pi * m + j)
+        A := (A.set! (k * m + j) b).set! (pi * m + j) a
+      let bk := r[k]!; let bp := r[pi]!
+      r := (r.set! k bp).set! pi bk
+    if pj != k then
+      for i in [0:m] do
+        let a := A.get! (i * m + k); let b := A.get! (i * m + pj)
+        A := (A.set! (i * m + k) b).set! (i * m + pj) a
+      let ck := perm[k]!; let cp := perm[pj]!
+      perm := (perm.set! k cp).set! pj ck
+    let piv := A.get! (k * m + k)
     for i in [k+1:m] do
-      let fct := (A[i]!)[k]! / piv
-      let mut row := A[i]!
+      let fct := A.get! (i * m + k) / piv
       for j in [k:m] do
-        row := row.set! j (row[j]! - fct * (A[k]!)[j]!)
-      A := A.set! i row
+        A := A.set! (i * m + j) (A.get! (i * m + j) - fct * A.get! (k * m + j))
       r := r.set! i (r[i]! - fct * r[k]!)
   let mut z := Array.replicate m 0.0
   for kk in [0:rank] do
     let k := rank - 1 - kk
     let mut s := r[k]!
     for j in [k+1:rank] do
-      s := s - (A[k]!)[j]! * z[j]!
-    z := z.set! k (s / (A[k]!)[k]!)
+      s := s - A.get! (k * m + j) * z[j]!
+    z := z.set! k (s / A.get! (k * m + k))
   let mut y := Array.replicate m 0.0
   for k in [0:m] do
     y := y.set! (perm[k]!) z[k]!
   return y
+
+def flat (a : Array F) : FloatArray := FloatArray.mk a
 
 def rowsOf (m n : Nat) (a : Array F) : Array (Array F) := (Array.range m).map (fun i => a.extract (i * n) (i * n + n))
 
@@ -103,16 +114,16 @@ def doLoopFD (toks : List String) : String :=
     let Ga := fl.extract (n * n) (n * n + m * n)
     let fa := fl.extract (n * n + m * n) (n * n + m * n + n)
     let ba := fl.extract (n * n + m * n + n) (n * n + m * n + n + m)
-    let Mrows := rowsOf n n Ma
-    let minv : Vec F n → Vec F n := fun x => let a := solveSquare n Mrows (ofVec x); toVec a
+    let (LU, perm) := luFactor n (flat Ma)
+    let minv : Vec F n → Vec F n := fun x => let a := luSolve n LU perm (ofVec x); toVec a
     let G : Mat F m n := toMat Ga
     -- A = G M⁻¹ ~G built with the model's own operator, column by column
     let Acols : Array (Array F) := (Array.range m).map (fun j =>
       ofVec (gMinvGt minv G (fun i : Fin m => if i.val == j then 1.0 else 0.0)))
-    let Arows : Array (Array F) := (Array.range m).map (fun i => (Array.range m).map (fun j => (Acols[j]!)[i]!))
-    let pinv : Vec F m → Vec F m := fun r => let a := solveRankDef m Arows (ofVec r) 1e-9; toVec a
+    let Aflat : FloatArray := flat ((Array.range (m * m)).map (fun k => (Acols[k % m]!)[k / m]!))
+    let pinv : Vec F m → Vec F m := fun r => let a := solveRankDef m Aflat (ofVec r) 1e-9; toVec a
     let res := loopFD minv pinv G (toVec fa) (toVec ba)
-    let out := (ofVec res.udot).toList ++ (if fullrank == 1 then (ofVec res.lam).toList else [])
+    let out := [1.0] ++ (ofVec res.udot).toList ++ (if fullrank == 1 then (ofVec res.lam).toList else [])
     fmtFloats "O loopFD" out
   | _ => "O loopFD ERR"
 
@@ -124,7 +135,7 @@ def doPower (toks : List String) : String :=
     let G : Mat F m n := toMat (fl.extract 0 (m * n))
     let lam : Vec F m := toVec (fl.extract (m * n) (m * n + m))
     let u : Vec F n := toVec (fl.extract (m * n + m) (m * n + m + n))
-    fmtFloats "O power" [power G lam u]
+    fmtFloats "O power" [1.0, power G lam u]
   | _ => "O power ERR"
 
 def main : IO Unit := do
